@@ -1,6 +1,7 @@
 """C04 — PCR and PTS/DTS codecs: exact layout, round trip, reserved/marker bits ignored, both PTS decoders agree.
 ops: pcr.rt old v -> [0 [old' [0 ExtractPCR(old')]]] ; pts.rt old v -> [0 [old' gots.ExtractTime(old') pes.ExtractTime(old')]] ;
      pcr.get b, pts.get b, pes.time b (decoders on arbitrary bytes); pcr.put / pts.put (encoders alone)."""
+import sys
 import vlib
 from vlib import Case, hx, unhx, parse_val
 
@@ -8,8 +9,9 @@ PROP = "C04"
 PROOF_FILES = ["Properties/C04.v", "Properties/C04e2e.v"]
 PCR_MAX = (1 << 33) * 300
 PTS_MAX = 1 << 33
-RULE = ("PCR values 0, 2^k, 2^k+-1 (every k), base 2^k+-1 x ext {0,1,127,128,255,256,257,298,299}, every slice boundary, range ends, "
-        "random; PTS values 0, 2^k, 2^k+-1, slice boundaries (bits 32/30/29/22/15/14/7), random; written into prior contents "
+RULE = ("PCR values 0, 2^k, 2^k+-1 (every k), base 2^k+-1 x ext {0,1,127,128,255,256,257,298,299}, every ext 0..299 on four bases, every "
+        "8-bit pattern across each byte boundary of the base, range ends, "
+        "random; PTS values 0, 2^k, 2^k+-1, slice boundaries (bits 32/30/29/22/15/14/7) with every 8-bit pattern across each, random; written into prior contents "
         "00.., ff.., random of length 6..12 resp. 5..12 and read back (both PTS decoders); decoders on random bytes and on "
         "every single reserved/marker bit flipped; a case is non-trivial when it is a distinct request inside the property's "
         "hypotheses (value in range, target long enough); short targets and 64-bit values are fidelity cases")
@@ -63,6 +65,14 @@ def pcr_values(rng, tier):
             if 0 <= base < PTS_MAX:
                 for ext in (0, 1, 127, 128, 255, 256, 257, 298, 299):
                     vs.add(base * 300 + ext)
+    # every extension value 0..299 on four bases; every 8-bit pattern straddling each byte boundary of the base
+    for base in (0, 1, PTS_MAX - 1, rng.randrange(PTS_MAX)):
+        for ext in range(300):
+            vs.add(base * 300 + ext)
+    for k in (1, 9, 17, 25):
+        for x in range(256):
+            base = (x << max(0, k - 4)) % PTS_MAX
+            vs.add(base * 300 + rng.randrange(300))
     for _ in range(300 if tier == "quick" else 30000):
         vs.add(rng.randrange(PCR_MAX))
         vs.add(rng.randrange(1 << rng.randrange(1, 42)) % PCR_MAX)
@@ -79,6 +89,10 @@ def pts_values(rng, tier):
     for k in (7, 14, 15, 22, 29, 30, 32):   # slice boundaries: everything below / at / above
         for v in ((1 << k) - 1, 1 << k, (1 << k) | ((1 << k) - 1), PTS_MAX - (1 << k), (PTS_MAX - 1) ^ (1 << k)):
             vs.add(v % PTS_MAX)
+    for k in (7, 14, 15, 22, 29, 30):       # every 8-bit pattern straddling each slice / byte boundary
+        for x in range(256):
+            vs.add((x << (k - 4)) % PTS_MAX)
+            vs.add(((x << (k - 4)) | rng.randrange(1 << (k - 4))) % PTS_MAX)
     for _ in range(300 if tier == "quick" else 30000):
         vs.add(rng.randrange(PTS_MAX))
         vs.add(rng.randrange(1 << rng.randrange(1, 34)) % PTS_MAX)
@@ -132,6 +146,25 @@ def _gen_own(rng, tier):
         out.append(Case("pcr.rt %s %d" % (hx(old), v), kind="fidelity-u64", decides=False, nontrivial=False))
         v = rng.choice((rng.randrange(PTS_MAX, 1 << 64), (1 << 64) - 1 - rng.randrange(1000), PTS_MAX + rng.randrange(1000)))
         out.append(Case("pts.rt %s %d" % (hx(old), v), kind="fidelity-u64", decides=False, nontrivial=False))
+    # end to end: PTS/DTS carried in a PES header (ops and projections of the C11 group)
+    from gen import c11
+    pv = pts_values(rng, "quick")
+    for i, v1 in enumerate(pv[:: (7 if tier == "quick" else 1)]):
+        v2 = pv[(i * 11 + 5) % len(pv)]
+        sid = rng.choice((0xE0, 0xC0, 0xBD, 0x00, 0xFD))
+        extra = bytes(rng.randrange(256) for _ in range(rng.choice((0, 0, 3))))
+        hdr = bytes([0, 0, 1, sid, 0, 0, rng.choice((0x80, 0x84)), 0xC0 | rng.randrange(64), 10 + len(extra)])
+        b = hdr + bytes(rng.randrange(256) for _ in range(10)) + extra + bytes(rng.randrange(256) for _ in range(rng.randrange(0, 9)))
+        out.append(Case("pes.put %s %d %d" % (hx(b), v1, v2), kind="pes-insert-then-decode", theorem="C04_pes_pts_dts_readback",
+                        proj=c11.proj_put))
+        pk = bytearray(rng.randrange(256) for _ in range(188)); pk[0] = 0x47; pk[1] |= 0x40
+        if i % 2:
+            pk[3] &= 0xdf
+        else:
+            pk[3] |= 0x20; pk[4] = rng.randrange(0, 170)
+        out.append(Case("pes.withpes %s %d" % (hx(pk), v1), kind="withpes-readback", theorem="C04_with_pes_readback",
+                        proj=c11.proj_withpes))
+    crosscheck_spec(out)
     return out
 
 
@@ -146,6 +179,29 @@ def _gen_e2e_af(rng, tier):
     sub = _r.Random(rng.randrange(1 << 62))
     keep = lambda c: c.decides and (" [ 8 " in c.line or " [ 9 " in c.line)
     return vlib.borrow(c03, c03.gen(sub, tier), "e2e-af", keep=keep, theorem="C03_pcr_roundtrip / C03 readback")
+def crosscheck_spec(cases):
+    """the bit-string reference used by the oracle below is itself compared, on every value and byte string of this run,
+    with the Coq-extracted ISO field serialisers / value functions of Spec/TimestampSpec.v (ops ser.pcr, ser.ts,
+    spec.pcrval, spec.tsval of modelexec); a disagreement is a fault of the machinery, not a verdict (exit 2)"""
+    req, want = [], []
+    for c in cases:
+        if not c.decides:
+            continue
+        f = c.line.split(" ")
+        if f[0] in ("pcr.rt", "pcr.put"):
+            req.append("ser.pcr " + f[2]); want.append(hx(ref_pcr_bytes(int(f[2]))))
+        elif f[0] in ("pts.rt", "pts.put"):
+            req.append("ser.ts 2 " + f[2]); want.append(hx(ref_pts_bytes(int(f[2]))))
+        elif f[0] == "pcr.get":
+            req.append("spec.pcrval " + f[1]); want.append(str(ref_pcr_decode(unhx(f[1]))))
+        elif f[0] in ("pts.get", "pes.time"):
+            req.append("spec.tsval " + f[1]); want.append(str(ref_pts_decode(unhx(f[1]))))
+    got = vlib.run_model(req)
+    for r, g, w in zip(req, got, want):
+        if g != w:
+            print("ERROR C04 generator: Spec/TimestampSpec.v and the Python reference disagree on `%s`: %s vs %s" % (r, g, w))
+            sys.exit(2)
+    return len(req)
 
 
 def oracle(c, real, model):
@@ -167,6 +223,16 @@ def oracle(c, real, model):
             want = "[0 %d]" % ref_pcr_decode(unhx(f[1]))
         elif f[0] in ("pts.get", "pes.time"):
             want = "[0 %d]" % ref_pts_decode(unhx(f[1]))
+        elif f[0] == "pes.put":
+            pr = c.proj(real)
+            if len(pr) != 2 or pr[1][3:7] != (1, int(f[2]), 1, int(f[3])):
+                return "PTS/DTS written into the PES header are not read back: observed %r, required PTS %s DTS %s" % (pr[1:], f[2], f[3])
+            return None
+        elif f[0] == "pes.withpes":
+            pr = c.proj(real)
+            if pr != ("hdr", 0, 1, 184, 1, int(f[2]), 0):
+                return "packet.WithPES then NewPESHeader: observed %r, required PTS %s" % (pr, f[2])
+            return None
         else:
             return None
     except Exception:
@@ -186,6 +252,8 @@ def shrink(c):
         for old2, v2 in ((bytes(n), v), (old, v & (v - 1)), (old, v >> 1), (old[:n], v)):
             if (old2, v2) != (old, v) and v2 >= 0:
                 yield Case("%s %s %d" % (f[0], hx(old2), v2), kind=c.kind, theorem=c.theorem)
+    elif f[0] in ("pes.put", "pes.withpes"):
+        return
     else:
         b = unhx(f[1])
         for i in range(len(b)):
@@ -219,6 +287,9 @@ def case_of_line(line, kind):
             dec = len(unhx(f[1])) >= 5 and int(f[2]) < PTS_MAX
         elif f[0] == "pcr.get":
             dec = len(unhx(f[1])) >= 6
+        elif f[0] in ("pes.put", "pes.withpes"):
+            from gen import c11
+            return Case(line, kind=kind, proj=c11.proj_put if f[0] == "pes.put" else c11.proj_withpes)
         else:
             dec = len(unhx(f[1])) >= 5
     except Exception:
